@@ -18,7 +18,7 @@ def scripts(rng, tier, n=None):
     n = n or (12 if tier == "quick" else 120)
     for k in range(n):
         ssrc = rng.randrange(2, 1 << 32)
-        p = rand_policy(rng, ssrc=ssrc, valid=True, allow_cryptex=(k % 3 == 0))
+        p, _ = strat_policy(rng, k, ssrc=ssrc, valid=True, allow_cryptex=(k % 3 == 0))
         # authenticating policy
         tag = rng.choice([4, 10, 10, 16])
         aead = p.rtp[0] in (GCM128, GCM256)      # AES-GCM authenticates every packet (tag 16 or 8), whatever sec_serv says
@@ -64,6 +64,14 @@ def scripts(rng, tier, n=None):
             tail_bits = [b for b in bits if b >= 8 * (tot - p.trailer(not rtcp))]
             sample = set(tail_bits if tier != "quick" else rng.sample(tail_bits, min(12, len(tail_bits))))
             sample |= set(bits if tier != "quick" and tot < 120 else rng.sample(bits, min(24, len(bits))))
+            if p.use_mki:
+                # the MKI octets are not covered by the tag: the key lookup is what refuses a changed MKI (first and last octet, every run)
+                m0 = (tot - p.mki_size) if p.rtp[0] in (GCM128, GCM256) and rtcp else (tot - p.trailer(not rtcp) + (4 if rtcp else 0))
+                if p.rtp[0] in (GCM128, GCM256) and not rtcp:
+                    m0 = tot - p.mki_size
+                for o in {m0, m0 + p.mki_size - 1}:
+                    if 8 <= o < tot:
+                        sample |= set(range(8 * o, 8 * o + 8))
             if rtcp:
                 # the E flag and the top of the SRTCP index: the first trailer octet, wherever this kind of policy puts the trailer
                 # (before MKI and tag; with AES-GCM after the tag) — every bit of it, in every run
